@@ -7,6 +7,7 @@
   `unwrap` those).
 -/
 import XotModel.Model.Parse
+import XotModel.Lemmas.ParseQName
 import XotModel.Model.TokenShape
 import XotModel.Lemmas.ParseSound
 
@@ -314,12 +315,13 @@ theorem run_np (lexErr : Option Nat) (ts : List Token) :
     intro b inTag hok h htags
     simp only [Builder.run]
     -- one step, then the induction hypothesis
-    have key : ∀ inTag', StepNP inTag' (b.step t) → TagsOk inTag' ts →
+    have key : ∀ inTag', StepNP inTag' (b.stepCore t) → TagsOk inTag' ts →
         match (match b.step t with | .ok b1 => Builder.run b1 ts lexErr | r => r) with
         | .ok b' => ∃ inTag', NoPanicInv b' inTag'
         | .err _ _ => True
         | .panic => False := by
       intro inTag' hs ht
+      replace hs : StepNP inTag' (b.step t) := b.step_cases t (fun _ => hs) (fun _ _ _ _ => trivial)
       cases hb : b.step t with
       | ok b1 =>
         rw [hb] at hs
@@ -332,7 +334,7 @@ theorem run_np (lexErr : Option Nat) (ts : List Token) :
       | false => simp [TagsOk] at htags
       | true =>
         refine key true ?_ (by simpa [TagsOk] using htags)
-        simp only [Builder.step]
+        simp only [Builder.stepCore]
         split
         · exact prefix_np h _ _ _
         · split
@@ -355,7 +357,7 @@ theorem run_np (lexErr : Option Nat) (ts : List Token) :
         | false => simp [TagsOk] at htags
         | true =>
           refine key false ?_ (by simpa [TagsOk] using htags)
-          simp only [Builder.step]
+          simp only [Builder.stepCore]
           have ho := openElement_np h
           cases hb : b.openElement with
           | panic => rw [hb] at ho; exact ho
@@ -392,7 +394,7 @@ theorem run_np (lexErr : Option Nat) (ts : List Token) :
         | true => simp [TagsOk] at htags
         | false =>
           refine key false ?_ (by simpa [TagsOk] using htags)
-          simp only [Builder.step]
+          simp only [Builder.stepCore]
           unfold Builder.closeElement
           cases hn : elementNameId b.env b.nsStack p.text l.text p.span with
           | panic => exact absurd hn (elementNameId_np _ _ _ _ _)
@@ -416,7 +418,7 @@ theorem run_np (lexErr : Option Nat) (ts : List Token) :
       | true => simp [TagsOk] at htags
       | false =>
         refine key false ?_ (by simpa [TagsOk] using htags)
-        simp only [Builder.step, Builder.text]
+        simp only [Builder.stepCore, Builder.text]
         split
         · trivial
         · exact addText_np h _ _
@@ -425,7 +427,7 @@ theorem run_np (lexErr : Option Nat) (ts : List Token) :
       | true => simp [TagsOk] at htags
       | false =>
         refine key false ?_ (by simpa [TagsOk] using htags)
-        simp only [Builder.step, Builder.cdata]
+        simp only [Builder.stepCore, Builder.cdata]
         split
         · exact h
         · exact addText_np h _ _
@@ -434,14 +436,14 @@ theorem run_np (lexErr : Option Nat) (ts : List Token) :
       | true => simp [TagsOk] at htags
       | false =>
         refine key false ?_ (by simpa [TagsOk] using htags)
-        simp only [Builder.step, Builder.comment]
+        simp only [Builder.stepCore, Builder.comment]
         exact addLeaf_np h (.comment (normalizeLineEnds t.text)) _ rfl rfl (keysSub_add _ _ _)
     | pi target content sp =>
       cases inTag with
       | true => simp [TagsOk] at htags
       | false =>
         refine key false ?_ (by simpa [TagsOk] using htags)
-        simp only [Builder.step]
+        simp only [Builder.stepCore]
         split
         · trivial
         simp only [Builder.processingInstruction]
@@ -455,7 +457,7 @@ theorem run_np (lexErr : Option Nat) (ts : List Token) :
       | true => simp [TagsOk] at htags
       | false =>
         refine key false ?_ (by simpa [TagsOk] using htags)
-        simp only [Builder.step]
+        simp only [Builder.stepCore]
         split
         · trivial
         · exact h
